@@ -5,7 +5,7 @@ import ast
 
 from ..program import AnalysisError, walk_local, dotted
 from ..analysis import Spec, src, class_const, const_value
-from ..rules import (value_leaves, positional_args, canon, inside, before, GWF, EXC, mpt, need_func, stores_to, raise_class,
+from ..rules import (ctext, value_leaves, positional_args, canon, inside, before, GWF, EXC, mpt, need_func, stores_to, raise_class,
                      parent_map, kw, is_const, eval_atom, UNKNOWN,
                      explicit_exits)
 from . import common
@@ -230,14 +230,16 @@ def find_comment_rules(prog, an, rep):
                   f.where(loop), 'find_comment does %s, required %s' % (
                       sorted(map(str, got)), sorted(map(str, want))))
     # what is returned in the two 'return' rows: the comment vs None
-    rets = [n for n in c.nodes.values() if n.kind == 'return']
-    in_loop = [r for r in rets
-               if inside(loop, r)]
-    vals = sorted(src(r.ast.value) if r.ast.value is not None else 'None'
-                  for r in in_loop)
-    rep.check(vals == sorted(['None', cvar]), R, f.qname + ': returns the '
-              'matching comment, or None when the latest differs',
-              f.where(loop), 'returns inside the loop: %s' % vals)
+    from .c17 import _returns
+    found = _returns(an, f, c, {a_auth: False, a_sw: True, mh: None,
+                                sw: 'msg'})
+    differs = _returns(an, f, c, {a_auth: False, a_sw: False, mh: -1,
+                                  sw: 'msg'})
+    rep.check(ctext(f, cvar) in found and differs == {None}, R,
+              f.qname + ': returns the matching comment, or None when the '
+              'latest differs', f.where(loop), 'a matching comment gives %s, '
+              'a different latest robot comment gives %s' % (
+                  sorted(map(str, found)), sorted(map(str, differs))))
 
 
 def _raises_template(prog, an, f, seen=None, depth=0):
